@@ -108,6 +108,8 @@ def _build(case):
         kw.update({n: v for n, v in zip(names, (7e-4, 6e-4)) })
         if "lr_critic" in names:
             kw["lr_critic"] = 5e-4
+    if case.get("reg") is not None and case["algo"] in ("NeuralUCB", "NeuralTS"):
+        kw["reg"] = float(case["reg"])  # a regularisation weight large enough to show in one learn step
     if case.get("alt_receiver") and case["algo"] in ("PPO", "IPPO"):
         # (C07) optional constructor values the saved agent leaves at None
         kw["target_kl"] = 0.01
